@@ -204,6 +204,7 @@ macro_rules! mw {
         #[kani::stub(std::fs::File::open, crate::verif::c08_modules::stub_file_open_forbidden)]
         #[kani::stub(crate::linux::sections::mappings::fill_raw_module, crate::verif::c08_modules::stub_fill_raw_module)]
         #[kani::stub(std::fmt::format, crate::verif::env::stub_format)]
+        #[kani::stub(std::vec::Vec::resize, crate::verif::env::stub_vec_resize)]
         fn $name() $body
     };
 }
@@ -222,7 +223,9 @@ fn reset_scripts(bid: [u8; 4], son: [bool; 4]) {
 // Three target mappings: /a/x.so (id readable, SONAME), [heap]-like unnamed (uninteresting),
 // /a/y.so (all-zero id -> not listed); one caller-supplied mapping with its own id.
 mw!(c08_write_list, {
-    reset_scripts([1, 2, 0, 0], [true, false, false, false]);
+    // unused script slots hold benign outcomes (zero id / SONAME present): with symbolic addresses CBMC also
+    // explores infeasible "one more read" paths, and an error dropped there costs minutes (drop glue of DumperError)
+    reset_scripts([1, 2, 2, 2], [true; 4]);
     let k: usize = kani::any();
     kani::assume(k >= 16 && k < (1usize << 34));
     let m0 = mapping(k << 12, 2 << 12, MMPermissions::READ | MMPermissions::EXECUTE, Some("/a/x.so"));
@@ -287,7 +290,7 @@ mw!(c08_write_list, {
 
 // A target mapping wholly inside a caller-supplied one is suppressed
 mw!(c08_write_suppressed, {
-    reset_scripts([1, 0, 0, 0], [false; 4]);
+    reset_scripts([2, 2, 2, 2], [true; 4]);
     let k: usize = kani::any();
     kani::assume(k >= 16 && k < (1usize << 34));
     let m0 = mapping((k + 1) << 12, 2 << 12, MMPermissions::READ | MMPermissions::EXECUTE, Some("/a/x.so"));
@@ -341,21 +344,26 @@ fn dev_rule(name: &'static str) {
 mw!(c02_dev_shm_never_opened, { dev_rule("/dev/shm/x") });
 mw!(c02_dev_zero_never_opened, { dev_rule("/dev/zero (deleted)") });
 
-// ---- probes (bisecting the cost of mappings::write; not listed in a tier) ----
-fn probe_write(named: bool, bid: u8, with_user: bool) {
-    probe_write2(named, bid, with_user, false)
-}
-fn probe_write2(named: bool, bid: u8, with_user: bool, son: bool) {
-    reset_scripts([bid, 0, 0, 0], [son; 4]);
-    let k: usize = 0x5000;
+// ---- one decision of mappings::write per harness (the 3-mapping harness above needs > 25 GB) ----
+/// One target mapping at a symbolic address (+ optionally one caller-supplied mapping elsewhere).
+/// `bid`: 1 = a build id is read (8 symbolic bytes), 2 = an all-zero id is read; `son`: SONAME readable.
+fn write_case(named: bool, bid: u8, with_user: bool, son: bool) {
+    reset_scripts([bid, 2, 2, 2], [son; 4]);
+    let k: usize = kani::any();
+    kani::assume(k >= 16 && k < (1usize << 34));
     let m0 = mapping(k << 12, 2 << 12, MMPermissions::READ | MMPermissions::EXECUTE, if named { Some("/a/x.so") } else { None });
     let mut d = dumper(Vec::new(), vec![m0], 4096);
     let mut cfg = MinidumpWriter::new(4242, 4243);
+    let uk: usize = kani::any();
+    kani::assume(uk > k + 64 && uk < (1usize << 35));
+    let uid: [u8; 4] = kani::any();
     if with_user {
-        let user = mapping(0x9000 << 12, 3 << 12, MMPermissions::READ, Some("/u/z"));
-        cfg.user_mapping_list.push(MappingEntry { mapping: user, identifier: vec![1, 2] });
+        let user = mapping(uk << 12, 3 << 12, MMPermissions::READ, Some("/u/z"));
+        cfg.user_mapping_list.push(MappingEntry { mapping: user, identifier: uid.to_vec() });
     }
     let mut buf = Buffer::with_capacity(300);
+    let pre: [u8; 3] = kani::any();
+    buf.write_all(&pre);
     let r = mappings::write(&mut cfg, &mut buf, &mut d);
     let dirent = match r {
         Ok(x) => x,
@@ -364,14 +372,53 @@ fn probe_write2(named: bool, bid: u8, with_user: bool, son: bool) {
             panic!("mappings::write failed");
         }
     };
-    assert!(dirent.location.rva == 0);
+    let listed_target = named && bid == 1;
+    let n = listed_target as usize + with_user as usize;
+    assert_eq!(dirent.stream_type, MDStreamType::ModuleListStream as u32);
+    let rva = dirent.location.rva as usize;
+    assert_eq!(rva, 3, "nothing but the list is written (module blobs are modelled)");
+    assert_eq!(rd_u32(&buf, rva) as usize, n, "count: target mapping iff named with a non-zero id, plus the caller's");
+    assert_eq!(dirent.location.data_size as usize, 4 + n * 108, "size == count + 108 bytes per module");
+    assert_eq!(buf.len(), rva + 4 + n * 108, "the list is the last thing written");
+    unsafe {
+        assert_eq!(FRM_N, n, "one module record per listed mapping");
+        assert_eq!(BID_CALLS, named as usize, "an id is read for an interesting mapping only, once");
+        assert_eq!(OPENED, 0, "no file is opened when the id can be read from memory");
+        let mut next = 0;
+        if listed_target {
+            assert_eq!(FRM_START[0], k << 12);
+            assert_eq!(FRM_IDLEN[0], 8);
+            let i: usize = kani::any();
+            kani::assume(i < 8);
+            assert_eq!(FRM_ID[0][i], BID_DATA[0][i], "the record carries the id that was read for this mapping");
+            assert_eq!(FRM_SONAME[0], son, "the SONAME read from the image is passed on (none if unreadable)");
+            assert_eq!(rd_u64(&buf, rva + 4), (k << 12) as u64, "base of image");
+            assert_eq!(rd_u32(&buf, rva + 4 + 8), 2 << 12, "size of image");
+            next = 1;
+        }
+        if with_user {
+            // the caller-supplied mapping: verbatim, after the target's modules, id as supplied, no SONAME lookup
+            assert_eq!(FRM_START[next], uk << 12);
+            assert_eq!(FRM_IDLEN[next], 4);
+            let j: usize = kani::any();
+            kani::assume(j < 4);
+            assert_eq!(FRM_ID[next][j], uid[j], "caller-supplied identifier");
+            assert!(!FRM_SONAME[next]);
+            let e = rva + 4 + 108 * next;
+            assert_eq!(rd_u64(&buf, e), (uk << 12) as u64);
+            assert_eq!(rd_u32(&buf, e + 8), 3 << 12);
+            assert_eq!(rd_u32(&buf, e + 12), next as u32, "records are emitted in call order");
+        }
+    }
     kani::cover!(true, "reached");
     core::mem::forget(d);
     core::mem::forget(cfg);
 }
-mw!(c08_probe_unnamed_nouser, { probe_write(false, 0, false) });
-mw!(c08_probe_unnamed_user, { probe_write(false, 0, true) });
-mw!(c08_probe_named_biderr, { probe_write(true, 0, false) });
-mw!(c08_probe_named_bidok, { probe_write(true, 1, false) });
-mw!(c08_probe_named_bidzero, { probe_write(true, 2, false) });
-mw!(c08_probe_named_bidok_sonok, { probe_write2(true, 1, false, true) });
+mw!(c08_write_unnamed_not_listed, { write_case(false, 2, false, true) });
+mw!(c08_write_zero_id_not_listed, { write_case(true, 2, false, true) });
+mw!(c08_write_listed_with_soname, { write_case(true, 1, false, true) });
+mw!(c08_write_user_only, { write_case(false, 2, true, true) });
+mw!(c08_write_target_then_user, { write_case(true, 1, true, true) });
+mw!(c08_write_zero_id_and_user, { write_case(true, 2, true, true) });
+// an unreadable SONAME is dropped (the error is discarded: this drop costs minutes under CBMC)
+mw!(c08_write_listed_no_soname, { write_case(true, 1, false, false) });
